@@ -103,7 +103,7 @@ func (hc *histChecker) onEntry(e *lmEntry, before, after *Model) {
 }
 
 // cmdGrant finds the lock grant of a client op (non-pipelined connections).
-func (hc *histChecker) cmdGrant(op *Op, connID int) *grantEvent {
+func (hc *histChecker) cmdGrant(op *Op, connID string) *grantEvent {
 	for i := range hc.inst.grants {
 		g := &hc.inst.grants[i]
 		if g.step >= op.Invoke && g.step <= op.Return && g.conn == connID && (g.role == "cmd") {
@@ -114,7 +114,7 @@ func (hc *histChecker) cmdGrant(op *Op, connID int) *grantEvent {
 }
 
 // onReply checks one acknowledged op.
-func (hc *histChecker) onReply(op *Op, connID int) {
+func (hc *histChecker) onReply(op *Op, connID string) {
 	w := hc.w
 	if w.failed() {
 		return
